@@ -29,6 +29,9 @@ def variant_ok(pname, info, q):
         return False
     if fn in ('calculate_r3', 'calculate_shear') and q.order != 'r3':
         return False
+    if fn == 'B_mag':
+        if (var.startswith('r1')) != (q.order == 'r1'):
+            return False
     if fn == 'calculate_shear':
         sym = q.sigma0 == 0 and np.max(np.abs(q.rs)) == 0 and np.max(np.abs(q.zc)) == 0
         if (var == 'sym') != bool(sym):
@@ -58,6 +61,13 @@ def extra_inputs(pname, info, q, rng):
         for j in range(1, q.nphi):
             cs[j] = cs[j - 1] + (q.d_l_d_phi[j - 1] + q.d_l_d_phi[j])
         ex['varphi_cumsum'] = cs
+    if fn == 'B_mag':
+        bt = info['variant'].endswith('boozer')
+        ex['r'] = 0.07; ex['theta'] = 0.9; ex['phi_arg'] = 0.37 + 2 * np.pi / q.nfp
+        ex['nu_at_phi'] = float(q.nu_spline(ex['phi_arg']))
+        ex['_bmag'] = float(q.B_mag(ex['r'], ex['theta'], ex['phi_arg'], Boozer_toroidal=bt))
+        if q.order != 'r1':
+            ex['B20_at_phi'] = float(q.B20_spline(ex['phi_arg']))
     if fn == 'solve_sigma_equation':
         x = np.array(q.sigma, dtype=float, copy=True)
         x[0] = q.iota
@@ -98,6 +108,9 @@ def reference_outputs(pname, info, q, ex):
         return ref
     if fn == '_jacobian':
         ref['s.ret'] = q._jacobian(ex['x']) @ ex['h']
+        return ref
+    if fn == 'B_mag':
+        ref['s.ret'] = ex['_bmag']
         return ref
     if fn in ('Bfield_cylindrical', 'Bfield_cartesian', 'grad_B_tensor_cartesian',
               'grad_grad_B_tensor_cylindrical', 'grad_grad_B_tensor_cartesian'):
